@@ -38,6 +38,10 @@ def better(a, b, minimize):
 def run_elitism(values, entries, k, minimize, form, rec, tag, number_form=None, prescored=False):
     from collections import Counter
 
+    from vk.values import num
+
+    values = [num(v) for v in values]  # "inf" / "-inf" in the JSON case: infinite fitness values
+
     from geneticengine.algorithms.gp.operators.elitism import ElitismStep
     from geneticengine.algorithms.gp.population import Population
     from geneticengine.evaluation.sequential import SequentialEvaluator
@@ -132,7 +136,7 @@ class GeneratedElitism(Facet):
     def strategy(self, tier):
         from vk.values import NUMBER_FORMS, single_objective_values
 
-        val = single_objective_values()
+        val = single_objective_values(infinities=True)
         return st.one_of(st.integers(1, 12), st.integers(1, 12 if tier == "quick" else 80)).flatmap(
             lambda n: st.builds(
                 lambda values, entries, kk, minimize, form, nf: {"values": values, "entries": entries, "k": 1 + kk % len(entries), "minimize": minimize, "form": form, "number_form": nf},
@@ -150,10 +154,14 @@ class GeneratedElitism(Facet):
         pre = case["k"] % 3 == 1
         rec.label("prescored-under-another-problem" if pre else "fresh-individuals")
         run_elitism(case["values"], case["entries"], case["k"], case["minimize"], case["form"], rec, "generated", case.get("number_form"), pre)
-        vals = sorted((case["values"][i] for i in case["entries"]), reverse=not case["minimize"])
+        from vk.values import num
+
+        vals = sorted((num(case["values"][i]) for i in case["entries"]), reverse=not case["minimize"])
         k = case["k"]
         if k < len(vals) and vals[k - 1] == vals[k]:
             rec.nontrivial(case)
+        if any(isinstance(v, str) for v in case["values"]):
+            rec.label("with-infinite-fitness")
         rec.label("form:" + case["form"], "minimize" if case["minimize"] else "maximize")
         rec.sample(case, limit=2)
 
